@@ -7,14 +7,22 @@
 (*                   "a" const declaration     "g" configurable            *)
 (*                   "b" literals in a function body, release build        *)
 (*                   "p" the same through ccp (operand known from `x == a`)*)
+(*                   "f" the real const-folding pass run on the one IR      *)
+(*                       instruction of a single-operator case (vh-fold):   *)
+(*                       k = "folded" (logs = <<constant, big-endian>>) or  *)
+(*                       "notfolded"; records of this kind are validated    *)
+(*                       with Mode = "fold" (Trace_ConstEvalFold.cfg)       *)
 (* k: "ran" (the package built and the test ran: out = "return"|"revert",  *)
 (*    logs, code), "cerror" (the declaration was rejected with a compile   *)
 (*    error), "panic" (the compiler panicked), anything else is rejected.  *)
 (* Each record is loaded into the model (TrLoad), the model's RunTime and  *)
 (* CompileTime actions compute sem and ce, and TrJudge compares every      *)
-(* observation with them.                                                  *)
+(* observation with them (the IR-instruction step FoldIR has no observable *)
+(* of its own in a built package and is not replayed).                     *)
 (***************************************************************************)
 EXTENDS ConstEval, Json, IOUtils
+
+CONSTANT Mode        \* "build": records of built packages (renderings c a g b p); "fold": records of vh-fold
 
 Rec == ndJsonDeserialize(IOEnv.TRACE)
 
@@ -36,29 +44,44 @@ ObsOK(s, x, o) ==
             ELSE o.k = "cerror" /\ s.k = "abort"
       [] OTHER -> FALSE
 
-FirstBad(r, s, x) ==
-    LET bad == { j \in DOMAIN r.obs : ~ObsOK(s, x, r.obs[j]) }
-    IN IF bad = {} THEN 0 ELSE CHOOSE j \in bad : \A i \in bad : j <= i
+\* the pass folded exactly when the transcription does, to the same constant
+FoldObsOK(f, o) ==
+    /\ o.r = "f" /\ f.k = "inst"
+    /\ IF f.f.k = "val" THEN o.k = "folded" /\ o.logs = <<ToBE(f.f.r)>> ELSE o.k = "notfolded"
+
+\* one flag per observation of the record
+Verdicts(r, s, x) == [j \in DOMAIN r.obs |-> ObsOK(s, x, r.obs[j])]
+FoldVerdicts(r, f) == [j \in DOMAIN r.obs |-> FoldObsOK(f, r.obs[j])]
 
 TraceInit == l = 1 /\ c = None /\ phase = "idle" /\ sem = None /\ ce = None /\ fold = None /\ TLCSet(1, 1) /\ TLCSet(2, 0)
 
 TrLoad ==
     /\ phase = "idle" /\ l <= Len(Rec)
     /\ c' = Case(Rec[l].cls, Rec[l].ty, Rec[l].e)
-    /\ phase' = "new" /\ sem' = None /\ ce' = None /\ fold' = None /\ l' = l
+    /\ phase' = (IF Mode = "fold" THEN "evaluated" ELSE "new")
+    /\ sem' = None /\ ce' = None /\ fold' = None /\ l' = l
 
+\* a record with a rejected observation is printed (with the model's sem and ce) and counted; the
+\* validation goes on with the next record, and the run as a whole is not accepted
 TrJudge ==
-    /\ phase = "done" /\ l <= Len(Rec)
-    /\ LET j == FirstBad(Rec[l], sem, CEObs(ce)) IN
-       IF j = 0 THEN l' = l + 1 /\ TLCSet(1, l + 1) ELSE TLCSet(2, j) /\ FALSE
+    /\ l <= Len(Rec)
+    /\ IF Mode = "fold" THEN phase = "done" ELSE phase = "evaluated"
+    /\ LET v == IF Mode = "fold" THEN FoldVerdicts(Rec[l], fold) ELSE Verdicts(Rec[l], sem, CEObs(ce)) IN
+       IF \A j \in DOMAIN v : v[j] THEN TRUE
+       ELSE /\ PrintT(<<"REJECT", ToJson([l |-> l, ok |-> v, sem |-> sem, ce |-> ce.k, fold |-> fold])>>)
+            /\ TLCSet(2, TLCGet(2) + 1)
+    /\ l' = l + 1 /\ TLCSet(1, l + 1)
     /\ phase' = "idle" /\ UNCHANGED <<c, sem, ce, fold>>
 
-TraceNext == TrLoad \/ (RunTime /\ l' = l) \/ (CompileTime /\ l' = l) \/ (FoldIR /\ l' = l) \/ TrJudge
+TraceNext ==
+    \/ TrLoad
+    \/ (Mode # "fold" /\ RunTime /\ l' = l)
+    \/ (Mode # "fold" /\ CompileTime /\ l' = l)
+    \/ (Mode = "fold" /\ FoldIR /\ l' = l)
+    \/ TrJudge
 TraceSpec == TraceInit /\ [][TraceNext]_<<vars, l>>
 
 Accepted ==
-    IF TLCGet(1) = Len(Rec) + 1 THEN TRUE
-    ELSE LET r == Rec[TLCGet(1)] IN
-         Print(<<"FIRST-UNMATCHED", TLCGet(1), TLCGet(2),
-                 ToJson([sem |-> Sem(r.e), ce |-> CE(r.e).k])>>, FALSE)
+    IF TLCGet(1) = Len(Rec) + 1 /\ TLCGet(2) = 0 THEN TRUE
+    ELSE Print(<<"FIRST-UNMATCHED", TLCGet(1), "rejected", TLCGet(2)>>, FALSE)
 =============================================================================
